@@ -36,9 +36,19 @@ CHECKS = {
    technique="same TLA+ model; clauses G1-G5 (first message rule, send refusals, integrity defects, wrong BeginString, silence and single on_disconnect after disconnect) evaluated by TLC on model transitions and on every implementation step",
    text="Every connection state reachable in the bounded model x role x frame class x integrity defect (no 49, no 56, swapped, wrong 49, wrong 56, no 34, wrong BeginString, number below/at/above) x send attempts of every class, followed by further input after a disconnect.",
    design_ref="5/C11", note="Roles are reached through the bare AsyncFIXConnection as the repository's tests do; client/server connect paths are exercised in C07. " + COMMON_NOTE),
+ "C07": dict(engine="Net",
+   technique="TLA+ two-endpoint model (spec/Net.tla: two Endpoint records, FIFO channels, Break/NoticeEOF/Reconnect actions) model-checked by TLC for Safe + Quiescence; shortest event path to every model state replayed on two real endpoints (AsyncFIXClient/AsyncFIXDummyServer subclasses over a fake link) + seeded random walks; every step evaluated by TLC (spec/NetEval.tla) for the clauses and for conformance",
+   text="Exhaustive with state hashing over sends, deliveries, breaks keeping any prefix of the in-flight frames, EOF/reset/OSError notices and reconnect+Logon up to the stated bound; each explored behaviour is executed on the real objects (real reader and heartbeat tasks under a virtual clock) and extended by a settle suffix, so the quiescence clause (both ACTIVE, counters cross-equal, every accepted message delivered exactly once in order) is evaluated on the real code after every schedule; random walks of up to 120 events add mid-frame breaks.",
+   design_ref="5/C07", note="Link model: FIFO, loses a suffix of the in-flight frames at a break; writes after a break vanish and drain raises. A send that raised may or may not arrive later (the property speaks about accepted sends). " + COMMON_NOTE),
+ "C09": dict(engine="Net",
+   technique="same TLA+ two-endpoint model with Restart actions; clauses T1 (restored counters), T2 (no MsgSeqNum reused for a different message, over the whole wire history), T4 (no ResendRequest when nothing was lost) plus the C07 clauses after the restart; file-backed journals reopened by a fresh Journaler; TLC evaluates recorded steps",
+   text="Graceful restarts of either endpoint at every quiescent point of the bounded model and in random walks (file journals, new connection object over the reopened file), followed by reconnect, Logon and settle; TLC self-check: with the stored-inbound-lag flag the model violates T1. Kill points inside a send / inside inbound processing are covered at the journal level by C08 (every statement boundary) and by the journal-before-write order checked in C05/C14; explicit mid-handler kills of a whole endpoint are listed as future work in DESIGN.md.",
+   design_ref="5/C09", note="Restart = tasks cancelled, journal object dropped, new Journaler on the same file, new connection object. " + COMMON_NOTE),
 }
 
 ENGINES = [
+ dict(name="Net", path="spec/Net.tla spec/NetEval.tla spec/Endpoint.tla harness/netrun.py harness/netcheck.py",
+      serves_properties=["C07", "C09"], kind_free_text="TLA+ model of two endpoints over a lossy link with restarts + TLC + replay on two real endpoints + TLC evaluation of recorded steps"),
  dict(name="Session1", path="spec/Endpoint.tla spec/Session1.tla spec/Session1MC.tla spec/SessionProps.tla spec/SessionEval.tla harness/net.py harness/session.py harness/sessrun.py",
       serves_properties=["C04", "C05", "C06", "C11"], kind_free_text="TLA+ model of one connection object (every handler of connection.py as an operator) + TLC exhaustive check of the property clauses + replay of every model state x event on the real connection + TLC evaluation of recorded steps"),
  dict(name="JournalTx", path="spec/JournalTx.tla spec/JournalCrashEval.tla harness/crash.py harness/props/c08.py",
